@@ -37,14 +37,14 @@ import (
 	"sort"
 	"strings"
 	"sync"
-	"sync/atomic"
 	"testing"
+	"time"
 
 	"github.com/cespare/xxhash"
 	"github.com/pilosa/pilosa/internal/vx"
 )
 
-const c24MapSize = 1 << 26
+const c24MapSize = 1 << 22
 
 type c24NS struct {
 	row          bool
@@ -222,12 +222,12 @@ type c24Inst struct {
 	replFresh  bool
 	nclone     int
 	fullSweep  bool
+	sweepPart  int // phase C: only deliveries with (running number % sweepParts) == sweepPart
+	sweepParts int
+	expired    func() bool
 }
 
-var c24Opens int64
-
 func c24Open(path string, feed *c24Feed) (*TranslateFile, error) {
-	atomic.AddInt64(&c24Opens, 1)
 	s := NewTranslateFile(OptTranslateFileMapSize(c24MapSize))
 	s.Path = path
 	if feed != nil {
@@ -528,7 +528,13 @@ func (in *c24Inst) sweep(full bool, onCase func(n int)) string {
 				ds = append(ds, delivery{[]int64{c}, false, fmt.Sprintf("split@+%d", c-b.off)})
 			}
 		}
-		for _, d := range ds {
+		for di, d := range ds {
+			if in.sweepParts > 1 && di%in.sweepParts != in.sweepPart {
+				continue
+			}
+			if in.expired != nil && di%64 == 0 && in.expired() {
+				return ""
+			}
 			in.nclone++
 			p := filepath.Join(in.dir, fmt.Sprintf("sw%d", in.nclone))
 			if err := os.WriteFile(p, log, 0o666); err != nil {
@@ -637,64 +643,91 @@ func c24Key(p []vx.Op, got, want string) string {
 	return name(last) + " " + kind + " after=" + strings.Join(names, "+")
 }
 
-func TestVerif_C24(t *testing.T) {
-	c := vx.NewCheck("C24", "model_checking",
-		"all operation sequences over the alphabet up to the phase-A depth on a fresh real TranslateFile (+ real replicas fed by the real Reader/replicate), then BFS over canonical (primary log, replica log length, built-by-replay flags) states; then every byte split of every big entry; distinct = distinct canonical end states")
-	th := c.Thorough()
-	h := &vx.Harness{Alphabet: c24Alphabet(th), New: func() vx.Instance { return c24New() }, Key: c24Key}
-	c.RunDFS(h, c.Pick(3, 4))
-	c.RunBFS(h, c.Pick(4, 5), c.Pick(4000, 60000))
-	c.ConfirmViolations(h)
+// Phase C: for the big entries (5000-byte keys, 300 keys) EVERY byte position is tried as the split,
+// from every entry boundary, in a column and a row namespace, alone and after a small entry.
+type c24BigCase struct {
+	ns, batch int
+	prelude   bool
+}
 
-	// Phase C: for the big entries (5000-byte key, 300 keys) EVERY byte position is tried as the split,
-	// from every entry boundary, in a column and a row namespace, alone and after a small entry.
-	type bigCase struct {
-		ns, batch int
-		prelude   bool
-	}
-	var cases []bigCase
+const c24BigParts = 8 // each case is cut into this many units (deliveries taken round-robin)
+
+func c24BigCases(thorough bool) []c24BigCase {
+	var cases []c24BigCase
 	bigs := []int{3, 6}
-	if th {
+	if thorough {
 		bigs = append(bigs, 8)
 	}
 	for _, ns := range []int{0, 1} {
 		for _, b := range bigs {
 			for _, pre := range []bool{false, true} {
-				cases = append(cases, bigCase{ns, b, pre})
+				cases = append(cases, c24BigCase{ns, b, pre})
 			}
 		}
 	}
-	var resumed int64
-	var rmu sync.Mutex
-	vx.ParallelFor(len(cases), func(i int) {
-		if c.Expired() {
-			return
+	return cases
+}
+
+func c24BigUnit(unit []int, expired func() bool) (evals int64, distinct []string, viols []c24PxCustomViol) {
+	bc := c24BigCases(true)[unit[0]]
+	part := unit[1]
+	in := c24New()
+	defer in.Close()
+	var path []vx.Op
+	tr := func(ns, b int) vx.Op {
+		return vx.Op{Name: "tr", Args: []int64{int64(ns), int64(b)}, S: c24Spaces[ns].String() + " " + c24Batches[b].name}
+	}
+	if bc.prelude {
+		path = append(path, tr(bc.ns, 1))
+	}
+	path = append(path, tr(bc.ns, bc.batch))
+	desc := vx.PathString(path) + fmt.Sprintf("; rsweep(every byte split, part %d/%d)", part, c24BigParts)
+	for _, o := range path {
+		if g, w := in.Apply(o); g != w {
+			return 1, nil, []c24PxCustomViol{{c24Key(path, g, w), desc, g, w}}
 		}
-		bc := cases[i]
-		in := c24New()
-		defer in.Close()
-		var path []vx.Op
-		if bc.prelude {
-			path = append(path, vx.Op{Name: "tr", Args: []int64{int64(bc.ns), 1}})
+	}
+	in.sweepPart, in.sweepParts, in.expired = part, c24BigParts, expired
+	var n int
+	v := in.sweep(true, func(k int) { n = k })
+	if v != "" {
+		p2 := append(append([]vx.Op(nil), path...), vx.O("rsweep"))
+		viols = append(viols, c24PxCustomViol{c24Key(p2, "replica "+v, "") + " (every byte split)", desc, "replica " + v, "every resumed replica in sync"})
+	}
+	return int64(n), []string{"phaseC " + desc}, viols
+}
+
+func TestVerif_C24(t *testing.T) {
+	th := os.Getenv("VERIF_TIER") == "thorough"
+	h := &vx.Harness{Alphabet: c24Alphabet(th), New: func() vx.Instance { return c24New() }, Key: c24Key}
+	c24PxCustom = c24BigUnit
+	if c24PxChild(h) {
+		return
+	}
+	c := vx.NewCheck("C24", "model_checking",
+		"all operation sequences over the alphabet up to the phase-A depth on a fresh real TranslateFile (+ real replicas fed by the real Reader/replicate), then BFS over canonical (primary log, replica log length, built-by-replay flags) states; then every byte split of every big entry; distinct = distinct canonical end states")
+	kv := map[string]string{}
+	t0 := time.Now()
+	c.AddStates(int64(c24PxRunDFS(c, h, c.Pick(3, 4), kv)))
+	c.Extra("phaseA_wall_s", time.Since(t0).Seconds())
+	// No state-merged phase B here: every writing operation appends to the log, which is part of the
+	// canonical state, so distinct histories of writes never merge (measured: BFS to depth 3 = the DFS
+	// tree again). The distinct canonical end states of phase A are reported as states.
+	t0 = time.Now()
+	var units [][]int
+	for i, bc := range c24BigCases(true) {
+		if bc.batch == 8 && !th {
+			continue
 		}
-		path = append(path, vx.Op{Name: "tr", Args: []int64{int64(bc.ns), int64(bc.batch)}})
-		for _, o := range path {
-			if g, w := in.Apply(o); g != w {
-				c.Violate(c24Key(path, g, w), path, g, w)
-				return
-			}
+		for p := 0; p < c24BigParts; p++ {
+			units = append(units, []int{i, p})
 		}
-		desc := fmt.Sprintf("%s prelude=%v then %s, full byte sweep", c24Spaces[bc.ns], bc.prelude, c24Batches[bc.batch].name)
-		v := in.sweep(true, func(n int) { rmu.Lock(); resumed += int64(n); rmu.Unlock() })
-		c.AddEval(1)
-		c.Distinct("phaseC " + desc)
-		if v != "" {
-			p2 := append(append([]vx.Op(nil), path...), vx.O("rsweep"))
-			c.Violate(c24Key(p2, "replica "+v, "")+" (full byte sweep)", desc, "replica "+v, "every resumed replica in sync")
-		}
-	})
+	}
+	resumed := c24PxRunCustom(c, h, units, kv)
 	c.Extra("phaseC_resumed_replicas_checked", resumed)
-	c.Extra("translate_files_opened", atomic.LoadInt64(&c24Opens))
+	c.Extra("phaseC_wall_s", time.Since(t0).Seconds())
+	c.Bound("phaseC_cases", len(units)/c24BigParts)
+	c.ConfirmViolations(h)
 	c.AddValidated(c.Evaluations)
 	c.Assume("4 namespaces, 9 batches over keys {\"\",a,b,é,U+1D11E,5000-byte keys,3+2 keys colliding/adjacent modulo 512,300 fresh}; ids are not prescribed, only positivity/stability/injectivity/reverse lookup")
 	c.Assume("true 64-bit xxhash collisions are out of reach; concurrent callers are not explored here")
